@@ -93,3 +93,10 @@ func VerifC02BucketIdx(id types.AccountID) uint8 { return getBucketIdx(id) }
 func (h *VerifC02Vpr) VerifC02PickWinner(seed int64) (types.Address, error) {
 	return h.v.pickVotingRewardWinner(seed)
 }
+
+// VerifC02BlankGlobals installs "no node": no voting-power rank and an empty parameter table (InitSystemParams
+// first discards the pending next-block values of whatever table is installed: that must not be another node's).
+func VerifC02BlankGlobals() {
+	votingPowerRank = nil
+	systemParams = &parameters{params: map[string]*big.Int{}}
+}
